@@ -109,7 +109,7 @@ class Ctx:
         self.cwrites = []          # container ids mutated
         self.reads = []            # (obj, field)
         self.obligations = []      # filled by contracts (requires at call sites, ...)
-        self.contracts = {}        # qualname -> stub(interp, func, args, kwargs)
+        self.contracts = {"rzilcompiler.Helper.log": _log_noop}   # qualname -> stub(interp, func, args, kwargs)
         self.target = None
         self.class_state = {}
         self.stats = {"nodes": {}, "inlined": set(), "assumed_calls": {}, "contract_calls": {}, "natives": set()}
@@ -223,6 +223,11 @@ class Ctx:
         for t, n in self._ncount.items():
             self.stats["nodes"][t.__name__] = self.stats["nodes"].get(t.__name__, 0) + n
         self._ncount = {}
+
+
+def _log_noop(it, f, args, kwargs):
+    it.ctx.stats["assumed_calls"]["log/print (A-LOG)"] = 1
+    return None
 
 
 def is_concrete(v, depth=0):
@@ -345,9 +350,7 @@ class Interp:
 
     def contains(self, item, coll):
         if isinstance(coll, dict):
-            if isinstance(item, (Tpl, Obj)) or is_sym(item):
-                raise Unsupported("symbolic key lookup in concrete dict")
-            return item in coll
+            return self.dict_has(coll, item)
         if isinstance(coll, (list, tuple, set, frozenset)):
             terms = []
             for x in coll:
@@ -387,6 +390,30 @@ class Interp:
 
     def _unsup(self, what):
         raise Unsupported(what)
+
+    def dict_has(self, d, key):
+        """membership with possibly templated keys: structural match, and refusal (undecided) when a
+        non-structural alias is possible (same literal skeleton, different symbolic parts)."""
+        if isinstance(key, Obj) or is_sym(key):
+            raise Unsupported("symbolic key lookup in concrete dict")
+        if isinstance(key, Atom):
+            key = Tpl([key])
+        if key in d:
+            return True
+        if isinstance(key, Tpl):
+            sk = key.skeleton()
+            for k in d:
+                if isinstance(k, Tpl) and k.skeleton() == sk:
+                    raise Unsupported(f"dict lookup of {key} may alias key {k}")
+                if isinstance(k, str) and len(sk) > 0 and isinstance(sk[0], str) and k.startswith(sk[0]) and len(k) > len(sk[0]):
+                    raise Unsupported(f"dict lookup of {key} may alias key {k!r}")
+        else:
+            for k in d:
+                if isinstance(k, Tpl):
+                    sk = k.skeleton()
+                    if isinstance(key, str) and sk and isinstance(sk[0], str) and key.startswith(sk[0]) and len(key) > len(sk[0]):
+                        raise Unsupported(f"dict lookup of {key!r} may alias key {k}")
+        return False
 
     # ------------------------------------------------------------------ attribute access
     def class_attr(self, cls: ClassInfo, owner, name, expr):
@@ -702,8 +729,9 @@ class Interp:
                 return list(getattr(recv, name)())
             if name in ("get", "pop", "setdefault"):
                 k = args[0]
-                if isinstance(k, (Tpl, Obj)) or is_sym(k):
+                if isinstance(k, Obj) or is_sym(k):
                     raise Unsupported("symbolic dict key")
+                self.dict_has(recv, k)   # raises Unsupported on possible non-structural aliasing
                 try:
                     return getattr(recv, name)(*args)
                 except Exception as e:
@@ -985,8 +1013,10 @@ class Interp:
             if isinstance(c, NativeAbs):
                 return c.setitem(self, k, v)
             if isinstance(c, (list, dict)):
-                if isinstance(k, (Tpl, Obj)) or is_sym(k):
+                if isinstance(k, Obj) or is_sym(k) or (isinstance(c, list) and isinstance(k, Tpl)):
                     raise Unsupported("symbolic subscript store")
+                if isinstance(c, dict):
+                    self.dict_has(c, k)
                 self.ctx.cwrites.append(id(c))
                 try:
                     c[k] = v
@@ -1372,8 +1402,16 @@ class Interp:
             if isinstance(k, int) and k < 0 and isinstance(c.parts[-1], str) and -k <= len(c.parts[-1]):
                 return c.parts[-1][k]
             raise Unsupported("index into template")
+        if isinstance(c, dict) and isinstance(k, (Tpl, Atom)):
+            if isinstance(k, Atom):
+                k = Tpl([k])
+            if not self.dict_has(c, k):
+                self.raise_(KeyError, k)
+            return c[k]
         if isinstance(k, (Tpl, Obj, Atom)) or is_sym(k):
             raise Unsupported(f"symbolic subscript on {type(c).__name__}")
+        if isinstance(c, dict):
+            self.dict_has(c, k)
         try:
             return c[k]
         except Exception as ex:
@@ -1823,7 +1861,7 @@ def explore(loader, setup, run, contracts=None, target=None, max_paths=4096, con
             break
         prefix = work.pop()
         ctx = Ctx(loader, prefix)
-        ctx.contracts = dict(contracts or {})
+        ctx.contracts.update(contracts or {})
         ctx.target = target
         if configure:
             configure(ctx)
